@@ -24,6 +24,11 @@ type c11Shape struct {
 // order of first appearance in the script (its expected label number).
 type c11ArgKind string
 
+// c11SameCmd makes every AutoVar leaf (and the switch) of a case use one and
+// the same command, with different arguments: the result var of a command
+// configured by argument position must be resolved per use.
+var c11SameCmd bool
+
 func c11Case(l *lvl, kinds []string, ctx, cfgKind, argKind, cmpKind string) *Case {
 	atoms := &AtomTable{Coded: true}
 	sname := atoms.New(ClsIdent, "script", "names")
@@ -38,8 +43,14 @@ func c11Case(l *lvl, kinds []string, ctx, cfgKind, argKind, cmpKind string) *Cas
 		texts map[int]int // arg index -> text number
 	}
 	var infos []*avInfo
+	sameCmd := c11SameCmd
+	var firstName *Atom
 	mkAV := func() *AVUse {
-		name := atoms.New(ClsPlainCmd, "av", "cmds")
+		name := firstName
+		if name == nil || !sameCmd {
+			name = atoms.New(ClsPlainCmd, "av", "cmds")
+			firstName = name
+		}
 		use := &AVUse{Name: A(name)}
 		info := &avInfo{use: use, texts: map[int]int{}}
 		switch argKind {
@@ -57,9 +68,12 @@ func c11Case(l *lvl, kinds []string, ctx, cfgKind, argKind, cmpKind string) *Cas
 		spec := AVSpec{Name: A(name), Pos: -1}
 		switch cfgKind {
 		case "fixed":
-			v := atoms.New(ClsIdent, "resvar", "")
-			spec.VarName = A(v)
-			use.VarName = v.Val // filled again at oracle time (per path values)
+			if sameCmd && len(avs) > 0 {
+				spec.VarName = avs[0].VarName
+			} else {
+				spec.VarName = A(atoms.New(ClsIdent, "resvar", ""))
+			}
+			use.VarName = spec.VarName.Val() // filled again at oracle time (per path values)
 		case "pos0", "pos1", "pos-out-of-range":
 			spec.VarName = L("")
 			pos := map[string]int{"pos0": 0, "pos1": 1, "pos-out-of-range": len(use.Args)}[cfgKind]
@@ -93,7 +107,7 @@ func c11Case(l *lvl, kinds []string, ctx, cfgKind, argKind, cmpKind string) *Cas
 	var body []Stmt
 	var swAV *AVUse
 	var caseVals []*Atom
-	if ctx == "switch" {
+	if ctx == "switch" || ctx == "while-switch" {
 		swAV = mkAV()
 		v1, v2 := atoms.New(ClsNum, "case", ""), atoms.New(ClsNum, "case", "")
 		caseVals = []*Atom{v1, v2}
@@ -102,6 +116,10 @@ func c11Case(l *lvl, kinds []string, ctx, cfgKind, argKind, cmpKind string) *Cas
 			{Value: []Tok{A(v2)}},
 			{Default: true, Body: []Stmt{&Cmd{Name: A(no)}}},
 		}}, &Cmd{Name: A(after)}}
+		if ctx == "while-switch" {
+			// the switch inside a loop whose condition uses the leaves
+			body = []Stmt{&While{Cond: usualTree(l, leaves), Body: body[:1]}, body[1]}
+		}
 	} else {
 		e := usualTree(l, leaves)
 		if ctx == "if-empty" {
@@ -323,6 +341,36 @@ func RunC11(env *Env, rep *Report) {
 			cases = append(cases, c11Case(l, kinds, "while", "pos1", "text", "eqnum"))
 		}
 	}
+	// one command used by every AutoVar leaf, with different arguments
+	c11SameCmd = true
+	nSame := 0
+	for n := 2; n <= 3; n++ {
+		for _, l := range enumLevels(n, 0, false) {
+			kinds := make([]string, n)
+			for i := range kinds {
+				kinds[i] = "autovar"
+			}
+			if n == 3 {
+				kinds[1] = "flag"
+			}
+			for _, ctx := range []string{"if", "while", "elif"} {
+				for _, cfg := range []string{"pos0", "pos1", "fixed"} {
+					if n == 3 && (ctx != "if" || cfg == "fixed") {
+						continue
+					}
+					cases = append(cases, c11Case(l, kinds, ctx, cfg, "two", "eqnum"))
+					nSame++
+				}
+			}
+		}
+	}
+	one1 := &lvl{operands: []*opnd{{}}}
+	for _, cfg := range []string{"pos0", "pos1"} {
+		// a leaf and a switch on the same command inside the loop body
+		cases = append(cases, c11Case(one1, []string{"autovar"}, "while-switch", cfg, "two", "eqnum"))
+		nSame++
+	}
+	c11SameCmd = false
 	cases = append(cases, c11ConstCase("fixed"), c11ConstCase("pos0"))
 	one := &lvl{operands: []*opnd{{}}}
 	for _, cfg := range []string{"fixed", "pos0", "pos1", "pos-out-of-range"} {
@@ -335,7 +383,7 @@ func RunC11(env *Env, rep *Report) {
 	}
 	rep.Technique = "symbolic execution of the real autovar parsing and emission (go/ssa) + SMT-discharged bisimulation in which evaluating an autovar leaf is an event followed by the comparison of the configured var"
 	rep.Explanation = "Bounded symbolic verification, not a proof. Conditions with up to the stated number of leaves (every operator/parenthesis/negation shape without redundant parentheses), at least one leaf being an autovar command, in if / empty-bodied if / elif / while / do-while position, and switch on an autovar command, are compiled by symbolic execution of the real code under command configs with a fixed result var or an argument position (in range and out of range). In the reference semantics evaluating an autovar leaf IS an event (the command rendered as a statement, inline text replaced by its hoisted label) followed in the new epoch by the comparison of the configured var; the bisimulation therefore decides exactly-once, in-order, not-at-all-when-short-circuited and again-on-every-iteration, for all names, values and game states."
-	rep.Bounds = map[string]interface{}{"max_leaves": maxLeaves, "contexts": append(contexts, "switch"), "configs": []string{"fixed var name", "arg position 0", "arg position 1", "arg position out of range (error expected)"}, "argument_kinds": []string{"none", "one identifier", "identifier+number", "inline text + identifier"}, "cases": len(cases)}
+	rep.Bounds = map[string]interface{}{"same_command_cases": nSame, "max_leaves": maxLeaves, "contexts": append(contexts, "switch"), "configs": []string{"fixed var name", "arg position 0", "arg position 1", "arg position out of range (error expected)"}, "argument_kinds": []string{"none", "one identifier", "identifier+number", "inline text + identifier"}, "cases": len(cases)}
 	rep.Outside = []string{"more leaves; redundant parentheses around autovar leaves (the and-chain regrouping defect of C02 would interfere)", "JSON loading of the command config (main.readCommandConfig)", "negative argument positions in the config"}
 	rep.Assumptions = []string{"assembly semantics of DESIGN.md §4.1", "command names (autovar and ordinary) are pairwise distinct identifiers", "inline text contents are concrete and pairwise distinct"}
 	rep.Functions = []string{"expectPeekVarOrAutoVar", "peekTokenIsAutoVar", "parseLeafBooleanExpression", "parseSwitchStatement", "leafExpressionBranch", "renderCommandStatement", "parseCommandStatement", "addImplicitTexts", "splitBooleanExpressionChunks"}
